@@ -544,6 +544,8 @@ def _fate(node, parent, stmt):
         if _ok_only(parent["pat"]):
             return "if-let-ok-only"
         return "matched"
+    if pk == "Match" and parent["e"] is not node:
+        return "value of a match arm"
     if pk == "Match":
         for a in parent["arms"]:
             pat = a["pat"]
